@@ -1,0 +1,17 @@
+//go:build verif
+
+// Contracts for package output, used by /verif (govc). Comment-only; compiled only under -tags verif.
+// The logging helpers are trusted to touch nothing but their writers.
+package output
+
+//@ func Infof trusted
+//@   assigns nothing
+//@ func Warningf trusted
+//@   assigns nothing
+//@ func Errorf trusted
+//@   assigns nothing
+//@ func Debugf trusted
+//@   assigns nothing
+//@ func AllowOverwrite trusted
+//@   assigns nothing
+//@   ensures result == allowOverwrite(ctx)
